@@ -381,9 +381,22 @@ func editRun(repo string, seed int64, ngen, capPerDoc, maxDocs int, out string) 
 	}
 	if maxDocs > 0 && len(bases) > maxDocs {
 		// keep a seed-dependent selection but always the control-character documents
-		keep := bases[len(bases)-4:]
-		rest := bases[:len(bases)-4]
+		// ... and up to three documents that embed objects with a `$schema` of their own (complements)
+		keep := append([]base{}, bases[len(bases)-4:]...)
+		var rest []base
+		nested := 0
+		for _, b := range bases[:len(bases)-4] {
+			if nested < 3 && bytes.Count(b.data, []byte(`"$schema"`)) >= 3 {
+				keep = append(keep, b)
+				nested++
+				continue
+			}
+			rest = append(rest, b)
+		}
 		r.Shuffle(len(rest), func(i, j int) { rest[i], rest[j] = rest[j], rest[i] })
+		if maxDocs > len(rest) {
+			maxDocs = len(rest)
+		}
 		bases = append(append([]base{}, rest[:maxDocs]...), keep...)
 	}
 	used := 0
